@@ -896,3 +896,10 @@ Example example_reassembly :
   let f := build example_msg in
   cut_all 0 (Open []) [firstn 5 f; skipn 5 f ++ firstn 9 f; skipn 9 f] = ([f; f], Open []).
 Proof. vm_compute. reflexivity. Qed.
+
+(* C03 on the remote path: whatever the important-delivery flag, the frame the sender builds is parsed by
+   the receiver into a message of the SAME priority (the value RouteSend* / RouteCall* select the mailbox
+   queue with) and the same flag *)
+Lemma remote_priority m : wf m ->
+  exists m', parse (build m) = Some m' /\ m_prio m' = m_prio m /\ m_imp m' = m_imp m.
+Proof. intros H. exists m. split; [exact (parse_build m H)|split; reflexivity]. Qed.
